@@ -436,9 +436,11 @@ func (c *wsConnection) subscribe(start time.Time, msg *message) {
 						gqlerr.Message = err.Error()
 					}
 				}
-				c.sendError(msg.id, gqlerr)
-			}
-			if errs := getSubscriptionError(ctx); len(errs) != 0 {
+				// one error frame per operation: the recovered panic together with any
+				// subscription errors the resolver had registered before it panicked
+				c.sendError(msg.id, append([]*gqlerror.Error{gqlerr}, getSubscriptionError(ctx)...)...)
+				c.complete(msg.id)
+			} else if errs := getSubscriptionError(ctx); len(errs) != 0 {
 				c.sendError(msg.id, errs...)
 			} else {
 				c.complete(msg.id)
